@@ -327,6 +327,25 @@ def policy(repo, tier):
                     bad.append(f"{rel}:{n.lineno} {dotted(n.func)} assigned to {tgt} without close() in finally")
                     continue
                 bad.append(f"{rel}:{n.lineno} {dotted(n.func)} result not bound to a with-item / closed variable")
+    for rel, m in mods.items():
+        for q, fn in m.functions.items():
+            for blk in [x for x in ast.walk(fn) if hasattr(x, "body") and isinstance(getattr(x, "body"), list)]:
+                for fld in ("body", "orelse", "finalbody"):
+                    stmts = getattr(blk, fld, None)
+                    if not isinstance(stmts, list):
+                        continue
+                    for i, st_ in enumerate(stmts):
+                        calls = [c for c in ast.walk(st_) if isinstance(c, ast.Call) and dotted(c.func) in ("tempfile.mkdtemp", "mkdtemp", "tempfile.mkstemp", "tempfile.NamedTemporaryFile")] \
+                            if isinstance(st_, (ast.Assign, ast.Expr, ast.AnnAssign)) else []
+                        for c in calls:
+                            n_sites += 1
+                            tgt = ast.unparse(st_.targets[0]) if isinstance(st_, ast.Assign) else None
+                            nxt = stmts[i + 1] if i + 1 < len(stmts) else None
+                            ok_ = isinstance(nxt, ast.Try) and any(
+                                isinstance(r, ast.Call) and dotted(r.func) in ("shutil.rmtree", "os.remove", "os.unlink", "os.rmdir") and tgt and tgt in ast.unparse(r)
+                                for fb in nxt.finalbody for r in ast.walk(fb)) if tgt else False
+                            if not ok_:
+                                bad.append(f"{rel}:{c.lineno} {dotted(c.func)}: the temporary object is not removed by a `finally` that starts right after its creation")
     G("C15/package/typestate#every-handle-opened-by-own-code-is-closed-on-all-paths", not bad and n_sites >= 20, "; ".join(bad[:6]) or f"{n_sites} open sites", "package")
     return {"obligations": obls, "functions": fns}
 
@@ -360,3 +379,5 @@ TRUSTED = ["the with-body of _patched_build_char_map leaves the patched attribut
 ASSUMED_MODELS = ["getattr/setattr on pypdf modules (ghost attribute map)", "generator resumption: normal, throw(exc), close()"]
 ASSUMPTIONS = ["SCHEDULES (thread interleavings) are NOT decided: contracts over one call cannot express them",
                "memo soundness is a parameter-dependency analysis on the AST (back end 'dataflow')", "PY-GEN"]
+
+REPLAY_UNKNOWN = True    # undecided / out-of-subset items are searched natively (replay) before being reported UNDECIDED
